@@ -52,3 +52,38 @@ check(
     "DESIGN.md section 3 C17",
     "unitlab",
 )
+
+ENGINES.append(
+    {
+        "name": "gridlab",
+        "path": "vf/gridlab.py",
+        "serves_properties": ["C01", "C08"],
+        "kind_free_text": "Hypothesis-generated grid descriptors executed through hypnotoad in 16 single-case subprocesses (collect - execute - check - shrink), cache keyed on descriptor + content hash of /repo sources; own parallel delta-debugging shrinker",
+    }
+)
+check(
+    "C01",
+    "exploration",
+    "Every point of all seven location arrays of generated complete grids (all topologies the generator reaches, both "
+    "interpolation methods, orthogonal and non-orthogonal, guards 0..3) is evaluated on the harness' own interpolant of the "
+    "input psi and compared with the radial psi grid value of its index and with psixy; pinned X-point corners are the only "
+    "exemption and are counted.",
+    "Trusted base: scipy RectBivariateSpline / own cosine-series evaluation built by the harness from the same input array; "
+    "tolerance 4*refine_atol*max(1,|psi|). Cases hypnotoad refuses are counted, not asserted.",
+    "generated-grid PBT (Hypothesis descriptors, parallel execution, reference-field oracle, own shrinker)",
+    "DESIGN.md section 3 C01",
+    "gridlab",
+)
+check(
+    "C08",
+    "exploration",
+    "For generated grids (shared corpus plus a topology-emphasis corpus with strongly unequal region sizes, guards 0..3, "
+    "start_at_upper_outer) the cell adjacency exhibited by the four corner arrays is compared cell by cell with a reference "
+    "model of BOUT++'s reading of ixseps*/jyseps*/ny_inner, together with tiling, connection symmetry, shared-edge "
+    "coincidence, index ordering, y-coord/theta/chi definitions.",
+    "Trusted base: vf/boutmodel.py (BOUT++ manual semantics of the topology integers). Coincidence tolerances 1e-7 (y joins, "
+    "copied values) and 1e-6 (x joins, independently computed).",
+    "generated-grid PBT against a reference topology model; parallel shrinker",
+    "DESIGN.md section 3 C08",
+    "gridlab",
+)
